@@ -365,3 +365,43 @@ def co2_factor_agreement(chk, prog, rule: str):
                           f"the season reset computes {nm} as {sorted(xb - xa)} where the first-season initialisation has {sorted(xa - xb)}: season k of a "
                           "multi-season run gets a different CO2 adjustment than a single-season run started at its planting date", loc=b.loc())
     return n
+
+
+def wt_in_soil_agreement(chk, prog, rule: str):
+    """'the water table is inside the profile' is decided twice (initialisation, daily): both compare the depth with 0 and the compartment
+    centres with the depth using the same operators (a table exactly at the surface, or exactly at a centre, is treated alike)"""
+    import copy
+    out = {}
+    for fn in ("check_groundwater_table", "read_model_initial_conditions"):
+        fi = prog.find_func(fn)
+        flow = flow_of(fi)
+        cfg = flow.cfg
+        sets = [n for n in cfg.live_nodes() if isinstance(n.ast, ast.Assign) and not (isinstance(n.ast.value, ast.Constant) and n.ast.value.value in (False, None))
+                and "in" in norm(n.ast.targets[0]).lower() and "soil" in norm(n.ast.targets[0]).lower()]
+        if not sets:
+            raise AnalysisError(f"{fn}: no assignment that can set 'water table in soil' to True")
+        forms = set()
+        for s_ in sets:
+            for t, l in cfg.transitive_control_deps(s_.id):
+                tn = cfg.nodes[t]
+                if tn.kind == "test" and isinstance(tn.ast, ast.Compare) and any("gw" in ast.unparse(x).lower() for x in ast.walk(tn.ast) if isinstance(x, (ast.Name, ast.Attribute))):
+                    forms.add(ast.unparse(_CanonFC().visit(copy.deepcopy(tn.ast))) + f" [{l}]")
+        # the selection of centres at or below the table
+        for x in ast.walk(fi.node):
+            if isinstance(x, ast.Compare) and any("zmid" in ast.unparse(y).lower() for y in ast.walk(x.left) if isinstance(y, ast.Name)) \
+                    and any("gw" in ast.unparse(y).lower() for y in ast.walk(x.comparators[0]) if isinstance(y, (ast.Name, ast.Attribute))):
+                c = copy.deepcopy(x)
+                txt = ast.unparse(c.left).lower()
+                forms.add("centres " + type(x.ops[0]).__name__ + " table")
+        out[fn] = forms
+        chk.fn(fi.key)
+    a, b = out["check_groundwater_table"], out["read_model_initial_conditions"]
+    fa = prog.find_func("check_groundwater_table")
+    construct = "'water table inside the profile': daily vs initialisation tests"
+    # the emptiness test is spelled differently (len(...) == 0 vs idx.shape[0] == 0): compare the depth-vs-0 test and the centre selection
+    key = lambda fs: sorted(f for f in fs if f.startswith("G ") or f.startswith("centres"))
+    if key(a) == key(b) and key(a):
+        chk.ok(rule, f"{fa.module}:{fa.qualname}", construct, "; ".join(key(a)))
+    else:
+        chk.violation(rule, f"{fa.module}:{fa.qualname}", construct, f"daily {key(a)} vs initialisation {key(b)}: a table exactly at the surface (or at a compartment "
+                      "centre) is inside the profile for one and outside for the other - compartments below it are then not saturated", loc=fa.loc())
